@@ -332,6 +332,16 @@ def check_refuse(ctx):
     wc = A.find_calls(wf, "write_table_hdf5")
     okp = len(wc) == 1 and A.str_const(A.get_arg(wc[0], None, "metadata_conflicts", with_default=True) or ast.Constant(value=None)) == "error"
     ctx.check(R, wf, "JokerSamples.write requests metadata_conflicts='error'", okp, "write_table_hdf5 is called without metadata_conflicts='error'", key="policy-write")
+    # a refused append leaves the file as it was: the only deletion of the output file is the documented `overwrite and not append` replacement, decided before the file is opened
+    for c in A.calls_in(fn):
+        d_ = A.call_name(c) or ""
+        if d_.split(".")[-1] in ("remove", "unlink", "rmtree", "truncate", "rename", "replace") and d_.split(".")[0] in ("os", "shutil", "pathlib", "Path"):
+            st_ = A.enclosing_stmt(c)
+            pc = A.conj(A.path_condition(st_, fn))
+            in_handler = A.enclosing(c, (ast.ExceptHandler,)) is not None or any(isinstance(a_, ast.Try) and any(st_ is x or A.is_ancestor(x, st_) for x in a_.finalbody) for a_ in A.ancestors(c))
+            ok_rm = A.nnf_implies(pc, A.nnf_of_src("not append")) and not in_handler
+            ctx.check(R, c, "the output file is deleted only to be replaced (overwrite, not append)", ok_rm,
+                      "`%s` can run on an append (%s): a refused append destroys the rows already in the file" % (A.unparse(c)[:40], "in an exception / cleanup handler" if in_handler else sorted(A.term_strings([pc]))), key="remove")
     # (b) dtype comparison tested and raising, dominating
     cmp_ifs = [s for s in A.walk_local(fn) if isinstance(s, ast.If) and any(A.call_name(c) == "_custom_tbl_dtype_compare" for c in A.calls_in(s.test))]
     okd = False
@@ -426,6 +436,8 @@ def check_paths(ctx):
     ctx.rule(R, "writer and readers agree on the dataset path (JokerSamples._hdf5_path) and its metadata path meta_path(path); write() passes the table, the path, "
                 "append/overwrite and serialize_meta=True; read() rebuilds the object from the table and its metadata; the FITS reference epoch is written as "
                 ".tcb.mjd and read back with format='mjd', scale='tcb'.")
+    from .C17 import check_ingest
+    check_ingest(ctx, R)
     wf = ctx.prog.func(SM, "JokerSamples.write", R)
     wc = A.find_calls(wf, "write_table_hdf5")
     if len(wc) != 1:
